@@ -21,6 +21,7 @@ use GDErrorKind::*;
 /*@ include path=prelude.rs @*/
 /*@ include path=std_assumed.rs @*/
 /*@ include path=alloc_model.rs @*/
+/*@ include path=text_model.rs @*/
 
 /*@ item file=crates/lib/src/buffer.rs kind=struct name=Buffer @*/
 
@@ -33,12 +34,17 @@ impl<'a, B: ByteOrder> Buffer<'a, B> {
     pub closed spec fn rest(&self) -> Seq<u8> { self.data@.subrange(self.cursor as int, self.data@.len() as int) }
 }
 
+pub open spec fn delim_of<D: StringDecoder>(until: Option<D::Delimiter>) -> D::Delimiter {
+    if until is Some { until->Some_0 } else { D::DELIMITER }
+}
 /*@ present file=crates/lib/src/buffer.rs text="impl<'a, B: ByteOrder> Buffer<'a, B> {" @*/
 impl<'a, B: ByteOrder> Buffer<'a, B> {
 /*@ fn file=crates/lib/src/buffer.rs impl="impl<'a, B: ByteOrder> Buffer<'a, B>" name=new
 spec {
-    requires data@.len() <= isize::MAX,      // Rust slice guarantee (trusted base)
     ensures r.wf(), r.bytes() == data@, r.pos() == 0,
+}
+body_start {
+    proof { axiom_slice_len(data); }     // Rust slice guarantee (trusted base)
 }
 @*/
 /*@ fn file=crates/lib/src/buffer.rs impl="impl<'a, B: ByteOrder> Buffer<'a, B>" name=current_position
@@ -72,7 +78,18 @@ spec {
         r is Ok <==> 0 <= old(self).pos() + offset <= old(self).bytes().len(),
         r is Ok ==> final(self).pos() == old(self).pos() + offset,
         r is Ok && offset >= 0 ==> final(self).rest() == old(self).rest().subrange(offset as int, old(self).rest().len() as int),
+        forall|a: Seq<u8>, t: Seq<u8>| offset >= 0 && old(self).rest() == #[trigger] (a + t) && a.len() == offset
+            ==> r is Ok && final(self).rest() == t,
         r is Err ==> final(self).pos() == old(self).pos() && final(self).rest() == old(self).rest() && r->Err_0.kind == PacketBad,
+}
+body_start {
+    proof {
+        assert forall|a: Seq<u8>, t: Seq<u8>| offset >= 0 && old(self).rest() == #[trigger] (a + t) && a.len() == offset
+            implies old(self).pos() + offset <= old(self).bytes().len()
+                 && old(self).rest().subrange(offset as int, old(self).rest().len() as int) == t by {
+            assert((a + t).subrange(a.len() as int, (a + t).len() as int) =~= t);
+        }
+    }
 }
 @*/
 /*@ fn file=crates/lib/src/buffer.rs impl="impl<'a, B: ByteOrder> Buffer<'a, B>" name=read
@@ -87,13 +104,25 @@ spec {
                  && final(self).rest() == old(self).rest().subrange(T::width() as int, old(self).rest().len() as int)
                  && r->Ok_0 == T::decode(old(self).rest().subrange(0, T::width() as int)),
         r is Err ==> final(self).rest() == old(self).rest(),
+        // step form used by the decode-correctness proofs: if the unread bytes are `a + t` with |a| = width, the read
+        // yields decode(a) and leaves exactly `t`
+        forall|a: Seq<u8>, t: Seq<u8>| old(self).rest() == #[trigger] (a + t) && a.len() == T::width()
+            ==> r is Ok && r->Ok_0 == T::decode(a) && final(self).rest() == t,
         r is Err ==> final(self).pos() == old(self).pos() && r->Err_0.kind == PacketUnderflow,
 }
 body_start {
     proof { T::width_is_size(); }
 }
 after "let bytes" {
-    proof { assert(bytes@ == old(self).rest().subrange(0, T::width() as int)); }
+    proof {
+        assert(bytes@ == old(self).rest().subrange(0, T::width() as int));
+        assert forall|a: Seq<u8>, t: Seq<u8>| old(self).rest() == #[trigger] (a + t) && a.len() == T::width()
+            implies old(self).rest().subrange(0, T::width() as int) == a
+                 && old(self).rest().subrange(T::width() as int, old(self).rest().len() as int) == t by {
+            assert((a + t).subrange(0, a.len() as int) =~= a);
+            assert((a + t).subrange(a.len() as int, (a + t).len() as int) =~= t);
+        }
+    }
 }
 @*/
 /*@ fn file=crates/lib/src/buffer.rs impl="impl<'a, B: ByteOrder> Buffer<'a, B>" name=read_string
@@ -109,6 +138,23 @@ spec {
                  && final(self).rest() == old(self).rest().subrange(D::consumed(old(self).rest(), until.unwrap_or(D::DELIMITER)) as int, old(self).rest().len() as int)
                  && r->Ok_0@ == D::text(old(self).rest(), until.unwrap_or(D::DELIMITER)),
         r is Ok <==> D::decodes(old(self).rest(), until.unwrap_or(D::DELIMITER)),
+        // step form: if the unread bytes are wire(txt) + t, the read yields txt and leaves exactly t
+        forall|txt: Seq<char>, t: Seq<u8>| D::wire_ok(txt, delim_of::<D>(until))
+            && old(self).rest() == #[trigger] (D::wire(txt, delim_of::<D>(until)) + t)
+            ==> r is Ok && r->Ok_0@ == txt && final(self).rest() == t,
+}
+body_start {
+    proof {
+        let dd = delim_of::<D>(until);
+        assert(dd == until.unwrap_or(D::DELIMITER));
+        assert forall|txt: Seq<char>, t: Seq<u8>| D::wire_ok(txt, dd) && old(self).rest() == #[trigger] (D::wire(txt, dd) + t)
+            implies D::decodes(old(self).rest(), dd) && D::consumed(old(self).rest(), dd) == D::wire(txt, dd).len()
+                 && D::text(old(self).rest(), dd) == txt
+                 && old(self).rest().subrange(D::wire(txt, dd).len() as int, old(self).rest().len() as int) == t by {
+            D::lemma_wire(txt, dd, t);
+            assert((D::wire(txt, dd) + t).subrange(D::wire(txt, dd).len() as int, (D::wire(txt, dd) + t).len() as int) =~= t);
+        }
+    }
 }
 @*/
 }
@@ -269,6 +315,16 @@ pub trait StringDecoder {
     spec fn text(data: Seq<u8>, d: Self::Delimiter) -> Seq<char>;
     /// whether decoding succeeds
     spec fn decodes(data: Seq<u8>, d: Self::Delimiter) -> bool;
+    /// wire form of a terminated string `txt` (encoder side of the reference model) and its side condition
+    spec fn wire(txt: Seq<char>, d: Self::Delimiter) -> Seq<u8>;
+    spec fn wire_ok(txt: Seq<char>, d: Self::Delimiter) -> bool;
+    /// decoding is a left inverse of `wire`, whatever follows
+    proof fn lemma_wire(txt: Seq<char>, d: Self::Delimiter, tail: Seq<u8>)
+        requires Self::wire_ok(txt, d)
+        ensures
+            Self::decodes(Self::wire(txt, d) + tail, d),
+            Self::consumed(Self::wire(txt, d) + tail, d) == Self::wire(txt, d).len(),
+            Self::text(Self::wire(txt, d) + tail, d) == txt;
     fn decode_string(data: &[u8], cursor: &mut usize, delimiter: Self::Delimiter) -> (r: GDResult<String>)
         requires *old(cursor) + data@.len() <= isize::MAX
         ensures
@@ -294,6 +350,16 @@ impl StringDecoder for Utf8Decoder {
     }
     open spec fn text(data: Seq<u8>, d: [u8; 1]) -> Seq<char> { utf8_text(data.subrange(0, str_end(data, d@[0]))) }
     open spec fn decodes(data: Seq<u8>, d: [u8; 1]) -> bool { utf8_valid(data.subrange(0, str_end(data, d@[0]))) }
+    open spec fn wire(txt: Seq<char>, d: [u8; 1]) -> Seq<u8> { utf8_bytes(txt).push(d@[0]) }
+    open spec fn wire_ok(txt: Seq<char>, d: [u8; 1]) -> bool { no_byte(utf8_bytes(txt), d@[0]) }
+    proof fn lemma_wire(txt: Seq<char>, d: [u8; 1], tail: Seq<u8>) {
+        let a = utf8_bytes(txt);
+        let w = a.push(d@[0]);
+        assert(w + tail =~= a + (seq![d@[0]] + tail));
+        lemma_first_index_of_concat(a, seq![d@[0]] + tail, d@[0]);
+        assert((w + tail).subrange(0, a.len() as int) =~= a);
+        axiom_utf8_roundtrip(txt);
+    }
 /*@ fn file=crates/lib/src/buffer.rs impl="impl StringDecoder for Utf8Decoder" name=decode_string
 use R8:position_eq
 body_start {
@@ -302,6 +368,14 @@ body_start {
 @*/
 }
 
+/// a NUL-terminated string is the wire form of the default-delimiter Utf8Decoder
+pub broadcast proof fn lemma_cstr_wire(txt: Seq<char>)
+    ensures
+        #[trigger] cstr(txt) == Utf8Decoder::wire(txt, delim_of::<Utf8Decoder>(None)),
+        no_nul(txt) ==> Utf8Decoder::wire_ok(txt, delim_of::<Utf8Decoder>(None)),
+{
+    if no_nul(txt) { axiom_utf8_no_nul(txt); }
+}
 /*@ present file=crates/lib/src/buffer.rs text="pub struct Utf8LengthPrefixedDecoder;" @*/
 pub struct Utf8LengthPrefixedDecoder;
 /// end of a length-prefixed string relative to data[1..]: first delimiter among the (at most n)
@@ -320,6 +394,23 @@ impl StringDecoder for Utf8LengthPrefixedDecoder {
     open spec fn text(data: Seq<u8>, d: [u8; 1]) -> Seq<char> { utf8_text(data.subrange(1, 1 + lp_end(data, d@[0]))) }
     open spec fn decodes(data: Seq<u8>, d: [u8; 1]) -> bool {
         data.len() >= 1 && 1 + lp_end(data, d@[0]) <= data.len() && utf8_valid(data.subrange(1, 1 + lp_end(data, d@[0])))
+    }
+    open spec fn wire(txt: Seq<char>, d: [u8; 1]) -> Seq<u8> { seq![utf8_bytes(txt).len() as u8] + utf8_bytes(txt) }
+    open spec fn wire_ok(txt: Seq<char>, d: [u8; 1]) -> bool { utf8_bytes(txt).len() <= 255 && no_byte(utf8_bytes(txt), d@[0]) }
+    proof fn lemma_wire(txt: Seq<char>, d: [u8; 1], tail: Seq<u8>) {
+        let a = utf8_bytes(txt);
+        let n = a.len() as int;
+        let data = (seq![a.len() as u8] + a) + tail;
+        assert(data[0] == a.len() as u8);
+        assert(data.len() == 1 + n + tail.len());
+        let st = skip_take(data, 1, n);
+        assert(st =~= a);
+        lemma_first_index_of(a, d@[0]);
+        assert(first_index_of(a, d@[0]) == a.len()) by {
+            if first_index_of(a, d@[0]) < a.len() { assert(a[first_index_of(a, d@[0])] == d@[0]); }
+        }
+        assert(data.subrange(1, 1 + n) =~= a);
+        axiom_utf8_roundtrip(txt);
     }
 /*@ fn file=crates/lib/src/buffer.rs impl="impl StringDecoder for Utf8LengthPrefixedDecoder" name=decode_string
 use R8:skip_take_position_eq
@@ -349,6 +440,10 @@ impl<B: ByteOrder> StringDecoder for Utf16Decoder<B> {
     open spec fn decodes(data: Seq<u8>, d: [u8; 2]) -> bool {
         utf16_valid(u16_units(B::is_le(), data.subrange(0, 2 * first_pair_index(data, d@))))
     }
+    // (no wire form is stated for UTF-16: the step form of read_string is vacuous for this decoder)
+    open spec fn wire(txt: Seq<char>, d: [u8; 2]) -> Seq<u8> { Seq::empty() }
+    open spec fn wire_ok(txt: Seq<char>, d: [u8; 2]) -> bool { false }
+    proof fn lemma_wire(txt: Seq<char>, d: [u8; 2], tail: Seq<u8>) { }
 /*@ fn file=crates/lib/src/buffer.rs impl="impl<B: ByteOrder> StringDecoder for Utf16Decoder<B>" name=decode_string
 use R8:chunks2_position_eq R17:data@.len()
 closure "|pos| pos * 2" {
